@@ -28,6 +28,7 @@ DECL = {
     (PA, 'Tags'): ('as', 'readwrite', 'true'),      # bound by Derived only
     (PB, 'Shared'): ('u', 'read', 'false'),
     (PB, 'Path'): ('o', 'readwrite', 'false'),
+    (PB, 'Ratio'): ('d', 'readwrite', 'true'),
     (PC, 'Extra'): ('s', 'readwrite', 'true'),      # Derived only
 }
 # attribute names on the classes
@@ -35,12 +36,13 @@ ATTR = {
     (PA, 'Title'): 'title', (PA, 'Level'): 'level', (PA, 'Flag'): 'flag',
     (PA, 'Blob'): 'blob', (PA, 'Secret'): 'secret', (PA, 'Count'): 'count',
     (PA, 'Shared'): 'shared_a', (PB, 'Shared'): 'shared_b',
-    (PB, 'Path'): 'path', (PA, 'Tags'): 'tags', (PC, 'Extra'): 'extra',
+    (PB, 'Path'): 'path', (PB, 'Ratio'): 'ratio', (PA, 'Tags'): 'tags',
+    (PC, 'Extra'): 'extra',
 }
 VALUES = {
     's': ['one', 'two'], 'i': [-5, 7], 'b': [True, False],
     'ay': [[1, 2], []], 'u': [3, 4000000000], 'as': [['a'], ['b', 'c']],
-    'o': ['/p', '/q/r'],
+    'o': ['/p', '/q/r'], 'd': [0.5, -2.0],
 }
 BASE_KEYS = [k for k in DECL if k not in ((PA, 'Tags'), (PC, 'Extra'))]
 DERIVED_KEYS = list(DECL)
@@ -74,6 +76,7 @@ def make_family():
         shared_a = O.DBusProperty('Shared', PA)
         shared_b = O.DBusProperty('Shared', PB)
         path = O.DBusProperty('Path', PB)
+        ratio = O.DBusProperty('Ratio', PB)
 
     class Derived(Base):
         dbusInterfaces = [ic]
@@ -83,9 +86,21 @@ def make_family():
     return Base, Derived
 
 
-def to_local(sig, v):
+# a third value per basic-typed property: assigned locally wrapped in a
+# typed wrapper of a *different* D-Bus type than the declared one (what is
+# read back remotely must still be a variant of exactly the declared type)
+FOREIGN = {'s': ('ObjectPath', '/w'), 'i': ('Byte', 9), 'u': ('UInt16', 9),
+           'b': ('Int32', 1), 'o': ('Signature', '/z'), 'd': ('Int32', 3)}
+for _sig, (_cls, _val) in FOREIGN.items():
+    VALUES[_sig] = VALUES[_sig] + [_val]
+
+
+def to_local(sig, v, vi=None):
     if sig == 'ay':
         return bytearray(v)
+    if vi == 2 and sig in FOREIGN:
+        from txdbus import marshal as M
+        return getattr(M, FOREIGN[sig][0])(v)
     return v
 
 
@@ -126,6 +141,9 @@ class PropScenario(explore.Scenario):
                 if k not in w.keys[name]:
                     continue
                 sig = DECL[k][0]
+                if len(VALUES[sig]) > 2 and \
+                        w.store[name][k] != VALUES[sig][2]:
+                    evs.append(('assign', name, ki, 2))
                 for vi in (0, 1):
                     if w.store[name][k] == VALUES[sig][vi]:
                         continue
@@ -160,7 +178,7 @@ class PropScenario(explore.Scenario):
             k = DERIVED_KEYS[ki]
             sig = DECL[k][0]
             v = VALUES[sig][vi]
-            setattr(w.objs[name], ATTR[k], to_local(sig, v))
+            setattr(w.objs[name], ATTR[k], to_local(sig, v, vi))
             w.store[name][k] = v
             return w.cw.sent(), None, ('changed', name, k, v)
         if ev[0] == 'set-unknown':
@@ -197,6 +215,8 @@ class PropScenario(explore.Scenario):
         other, mine, exp = self._do(w, ev)
         if exp[0] == 'ambiguous':
             self._resolve_ambiguous(w, exp)
+        # reads are part of the history (they may be cached): repeat them
+        self._readback(w, ev[1], ev, 'replay')
 
     def _resolve_ambiguous(self, w, exp):
         """Set with an empty interface name on a property name two interfaces
@@ -393,7 +413,7 @@ def _b(m):
 def run(ctx):
     ctx.rule = (
         'object family built fresh per execution: %d property declarations '
-        'over 3 interfaces (types s i b ay u as o; read / write / readwrite; '
+        'over 3 interfaces (types s i b ay u as o d; read / write / readwrite; '
         'notification true / false / invalidates), one name declared '
         'differently on two interfaces and bound explicitly, a derived class '
         'binding a further property of an interface its base class binds. '
